@@ -535,14 +535,15 @@ fn gen_inputs(g: &mut Gen, ops: &[&str], exhaustive_len: usize, n_sampled: usize
         let core = [0usize, 1, 2, 13, 5];
         let deep = if g.thorough { 8 } else { 7 };
         let mut cur: Vec<usize> = vec![];
-        fn rec(cur: &mut Vec<usize>, core: &[usize], deep: usize, out: &mut Vec<Vec<u8>>) {
-            if cur.len() > 5 { out.push(seq_bytes(cur)); }
+        let bare_max = if g.thorough { 8 } else { 6 };
+        fn rec(cur: &mut Vec<usize>, core: &[usize], deep: usize, bare_max: usize, out: &mut Vec<Vec<u8>>) {
+            if cur.len() > 5 && cur.len() <= bare_max { out.push(seq_bytes(cur)); }
             if cur.len() >= 3 { let mut p = vec![13usize, 2, 0]; p.extend_from_slice(cur); out.push(seq_bytes(&p)); }
             if cur.len() == deep { return; }
-            for &k in core { cur.push(k); rec(cur, core, deep, out); cur.pop(); }
+            for &k in core { cur.push(k); rec(cur, core, deep, bare_max, out); cur.pop(); }
         }
         let mut out = vec![];
-        rec(&mut cur, &core, deep, &mut out);
+        rec(&mut cur, &core, deep, bare_max, &mut out);
         for s in &out { for op in ops { emit_input(g, op, s); } }
         g.count(&format!("exhaustive-5-core-kinds-len-le-{}", deep));
     }
@@ -594,8 +595,8 @@ fn gen_inputs(g: &mut Gen, ops: &[&str], exhaustive_len: usize, n_sampled: usize
 
 /// C03 cases
 pub fn gen_c03(g: &mut Gen) {
-    let exh = 5;
-    let sampled = g.budget(12_000, 1_500_000);
+    let exh = g.budget(4, 5);
+    let sampled = g.budget(20_000, 1_500_000);
     let random = g.budget(12_000, 300_000);
     let docs = g.budget(3_000, 60_000);
     gen_inputs(g, &["btpair", "btape", "btapeU"][..1], exh, 0, 0, 0);
